@@ -178,8 +178,8 @@ structure OrderOps.Lawful (o : OrderOps β) : Prop where
   neg : Antitone o.cmp o.neg
 
 theorem getBest_multi_eq (o : OrderOps β) (objs : List (μ × Goal)) (safety : List (μ × Goal × β))
-    (trials : List (PTrial μ β)) (hm : 2 ≤ objs.length) :
-    getBest o objs safety false none trials =
+    (allTied : Bool) (trials : List (PTrial μ β)) (hm : 2 ≤ objs.length) :
+    getBest o objs safety false allTied none trials =
       some (((trials.zip (naive o.cmp.val (trials.map (labelRow o objs safety)))).filter (·.2)).map (·.1)) := by
   unfold getBest
   have h1 : objs.isEmpty = false := by cases objs <;> simp_all
@@ -189,10 +189,10 @@ theorem getBest_multi_eq (o : OrderOps β) (objs : List (μ × Goal)) (safety : 
 /-- as written, on studies whose trials are all completed, feasible and report a number for
 every objective, the multi-objective query returns the optimal trials of the definition -/
 theorem getBest_asWritten_correct {o : OrderOps β} (h : o.Lawful) (objs : List (μ × Goal))
-    (safety : List (μ × Goal × β)) (trials : List (PTrial μ β)) (hm : 2 ≤ objs.length)
+    (safety : List (μ × Goal × β)) (allTied : Bool) (trials : List (PTrial μ β)) (hm : 2 ≤ objs.length)
     (hel : ∀ t ∈ trials, eligibleP objs t = true) :
-    getBest o objs safety false none trials = some (bestDef o objs safety trials) := by
-  rw [getBest_multi_eq o objs safety trials hm]
+    getBest o objs safety false allTied none trials = some (bestDef o objs safety trials) := by
+  rw [getBest_multi_eq o objs safety allTied trials hm]
   congr 1
   have hrect : Rect objs.length (trials.map (labelRow o objs safety)) := by
     intro r hr
@@ -243,11 +243,11 @@ theorem bestDef_filter (o : OrderOps β) (objs : List (μ × Goal)) (safety : Li
 /-- with the eligibility filter (proposed fix) the multi-objective query returns the optimal
 trials of the definition for every study history -/
 theorem getBest_fixed_correct {o : OrderOps β} (h : o.Lawful) (objs : List (μ × Goal))
-    (safety : List (μ × Goal × β)) (trials : List (PTrial μ β)) (hm : 2 ≤ objs.length) :
-    getBest o objs safety true none trials = some (bestDef o objs safety trials) := by
-  have e : getBest o objs safety true none trials =
-      getBest o objs safety false none (trials.filter (eligibleP objs)) := by
+    (safety : List (μ × Goal × β)) (allTied : Bool) (trials : List (PTrial μ β)) (hm : 2 ≤ objs.length) :
+    getBest o objs safety true allTied none trials = some (bestDef o objs safety trials) := by
+  have e : getBest o objs safety true allTied none trials =
+      getBest o objs safety false allTied none (trials.filter (eligibleP objs)) := by
     unfold getBest; simp
-  rw [e, getBest_asWritten_correct h objs safety _ hm (fun t ht => (List.mem_filter.mp ht).2), bestDef_filter]
+  rw [e, getBest_asWritten_correct h objs safety allTied _ hm (fun t ht => (List.mem_filter.mp ht).2), bestDef_filter]
 
 end VizierModel.Pareto
